@@ -421,6 +421,7 @@ CLI_CORPUS_KEYS = {
     "C12": ("exact=1", "meaningmax"),
     "C15": ("mode=file",),
     "C14": ("fpath=",),
+    "C19": ("tdfail", "setupfail", "maxfailrate=19", "igndrop=1"),
     "C01": ("pushgw",),
     "C16": ("pushgw", "static"),
 }
@@ -488,6 +489,8 @@ def cli_corpus():
         c(mode="constant", dur=hx("1200ms"), conc=4, rate=hx("5/s"), meaningmax=1, timing=1),                       # regular distribution: 5 per second, not 10
         c(mode="file", fdur=800, conc=2, bodyms=5, fstages="c:150:3/50ms;u:150:2", fstart=7200000),                   # restarted after the last stage: nothing to run, no error
         c(mode="file", fdur=800, conc=2, bodyms=5, fstages="c:150:3/50ms;u:150:2", fstart=200),
+        c(mode="file", fdur=4000, conc=2, bodyms=5, fstages="c:150:3/50ms;u:150:2", fstart=7200000, retmax=2000),     # … and the trigger's duration is still the whole plan's, not 0: the run ends with the plan, not with max-duration
+        c(mode="file", fdur=4000, conc=2, bodyms=5, fstages="c:300:3/50ms;c:300:3/50ms", fstart=450, retmax=2300),
         c(mode="file", fdur=250, conc=2, bodyms=5, fstages="c:150:3/50ms;c:300:3/50ms;u:150:2", fshared=1),           # shared parameter, run ends inside stage 2
         c(mode="file", fdur=800, conc=2, bodyms=1, maxit=4, fstages="u:150:2;c:300:3/50ms", fshared=1),
         c(mode="constant", dur=hx("650ms"), conc=20, rate=hx("7/s"), dist=hx("regular"), exact=1, timing=1),       # the k-th tick requests the k-th value of the profile
